@@ -15,14 +15,19 @@ Inductive ckind := LineCb | CallCb.
 Record ctx := { c_kind : ckind; c_lab : label; c_owner : nat; c_id : nat }.
 Definition is_line (k : ckind) : bool := match k with LineCb => true | CallCb => false end.
 
-(* the loop of __process_call_backs: from the top, while the context is at this location; a context
-   opened by a call ends the walk *)
-Fixpoint complete (isline : bool) (lab : label) (p : list ctx) : list ctx * list ctx :=
+(* the loop of __process_call_backs: from the top, while the context is at this location: at most one context
+   opened by a line, then at most one opened by a call (which a line event never completes) *)
+Definition matches (lab : label) (c : ctx) : bool := lab_eqb (c_lab c) lab.
+Definition complete (isline : bool) (lab : label) (p : list ctx) : list ctx * list ctx :=
   match p with
   | [] => ([], [])
   | c :: r =>
-    if negb (lab_eqb (c_lab c) lab) then ([], p) else
-    if is_line (c_kind c) then let '(d, r') := complete isline lab r in (c :: d, r')
+    if negb (matches lab c) then ([], p) else
+    if is_line (c_kind c) then
+      match r with
+      | c2 :: r2 => if matches lab c2 && negb (is_line (c_kind c2)) && negb isline then ([c; c2], r2) else ([c], r)
+      | [] => ([c], [])
+      end
     else if isline then ([], p) else ([c], r)
   end.
 
